@@ -7,7 +7,7 @@
 Set Warnings "-ambiguous-paths,-notation-overridden,-redundant-canonical-projection".
 From mathcomp Require Import all_ssreflect all_fingroup all_algebra.
 From Coq Require Import ZArith.
-From SL Require Import Lib.Base Model.Matrix Proofs.MatrixInv Proofs.MatrixList Proofs.MatrixField.
+From SL Require Import Lib.Base Model.Matrix Proofs.MatrixInv Proofs.MatrixList Proofs.MatrixField Proofs.MatrixListForm.
 Import GRing.Theory.
 Local Open Scope ring_scope.
 
@@ -73,3 +73,26 @@ Check inverse_correct : forall q, Znumtheory.prime q -> forall n m, (0 < n)%coq_
   exists m', [/\ matrix_inverse q m n = Val m', wf_mat q n m',
                  mxof q n m' *m mxof q n m = 1%:M & mxof q n m *m mxof q n m' = 1%:M].
 Print Assumptions inverse_correct.
+
+(** The same with no MathComp notion in the statement: "determinant non-zero" is "the computed determinant is not
+    [Val 0]" (equivalent by [bareiss_det_correct]), product and identity are the list functions of Model/Matrix.v. *)
+Theorem inverse_correct_lists : forall q, Znumtheory.prime q -> forall n m, (0 < n)%coq_nat -> wf_mat q n m ->
+  bareiss q m n <> Val 0%Z ->
+  exists m', [/\ matrix_inverse q m n = Val m', wf_mat q n m',
+                 mat_mul q m' m = mat_id n & mat_mul q m m' = mat_id n].
+Proof. exact inverse_correct_list. Qed.
+Check inverse_correct_lists : forall q, Znumtheory.prime q -> forall n m, (0 < n)%coq_nat -> wf_mat q n m ->
+  bareiss q m n <> Val 0%Z ->
+  exists m', [/\ matrix_inverse q m n = Val m', wf_mat q n m',
+                 mat_mul q m' m = mat_id n & mat_mul q m m' = mat_id n].
+Print Assumptions inverse_correct_lists.
+
+(** Anchor for the abstraction: on 2 x 2 matrices the computed determinant is a*d - b*c modulo q, stated over Z only. *)
+Theorem bareiss_2x2_closed_form : forall q, Znumtheory.prime q -> forall a b c d,
+  (0 <= a < q)%Z -> (0 <= b < q)%Z -> (0 <= c < q)%Z -> (0 <= d < q)%Z ->
+  bareiss q [:: [:: a; b]; [:: c; d]] 2 = Val ((a * d - b * c) mod q)%Z.
+Proof. exact bareiss_2x2. Qed.
+Check bareiss_2x2_closed_form : forall q, Znumtheory.prime q -> forall a b c d,
+  (0 <= a < q)%Z -> (0 <= b < q)%Z -> (0 <= c < q)%Z -> (0 <= d < q)%Z ->
+  bareiss q [:: [:: a; b]; [:: c; d]] 2 = Val ((a * d - b * c) mod q)%Z.
+Print Assumptions bareiss_2x2_closed_form.
